@@ -70,3 +70,17 @@ Theorem C12_repeat_energy_peak : forall k (l:list R) secs fy, (0 < k)%nat -> fy 
   e' = INR k * e /\ e' / (INR k * fy) = e / fy /\ @maxl0 R RNum (rep k l) = @maxl0 R RNum l.
 Proof. exact repeat_energy_peak. Qed.
 Print Assumptions C12_repeat_energy_peak.
+
+(* ---- the executable (Q) instance that is run against /repo and the proof (R) instance agree (Transfer*.v) ---- *)
+From Coq Require Import QArith Qreals.
+From Param Require Import Param.
+From SV Require Import Transfer TransferAll.
+Theorem C12_exec_costs_is_proof_model : forall tbl sh sh' inp inp',
+  SV_o_Costs_o_sheet_R Q R QR sh sh' -> SV_o_Costs_o_inputs_R Q R QR inp inp' ->
+  res_R _ _ (SV_o_Costs_o_outputs_R Q R QR) (@calculate_costs Q (QNum tbl) sh inp) (@calculate_costs R RNum sh' inp').
+Proof. exact calculate_costs_transfer. Qed.
+Print Assumptions C12_exec_costs_is_proof_model.
+Theorem C12_exec_every_input_has_a_real_counterpart : forall (sh:@sheet Q) (inp:@inputs Q),
+  { sh' : @sheet R & SV_o_Costs_o_sheet_R Q R QR sh sh' } * { inp' : @inputs R & SV_o_Costs_o_inputs_R Q R QR inp inp' }.
+Proof. intros sh inp. exact (sheet_total sh, inputs_total inp). Qed.
+Print Assumptions C12_exec_every_input_has_a_real_counterpart.
